@@ -1,7 +1,7 @@
 (* C09 — bit-packed sub-fields are exact and isolated. *)
 From Coq Require Import String.
 From Coq Require Import ZArith List Bool.
-From LasV Require Import Lib.Base Gen.GenFormatBits Gen.GenDims Model.SubField Proofs.SubFieldProofs.
+From LasV Require Import Lib.Base Gen.GenFormatBits Gen.GenDims Model.SubField Proofs.SubFieldProofs Model.SubFieldRec Proofs.SubFieldRecProofs.
 Import ListNotations.
 Open Scope list_scope.
 Open Scope Z_scope.
@@ -53,8 +53,106 @@ Theorem C09_array_reads_back : forall fmt name composed m, In (fmt, name, compos
 Proof. exact fold_reads_back. Qed.
 Print Assumptions C09_array_reads_back.
 
+(* ---------------- round 3: derived views, record growth, copy_fields_from, histories (Model/SubFieldRec.v) ---------------- *)
+
+(* a chain of slices of a view addresses distinct points of the record *)
+Theorem C09_view_positions : forall n chain, chain_ok n chain ->
+  NoDup (view_chain n chain) /\ Forall (fun i => (i < n)%nat) (view_chain n chain).
+Proof. exact view_chain_spec. Qed.
+Print Assumptions C09_view_positions.
+
+(* rec[name][s1]..[sk][key] = value with in-range values: accepted; the record keeps its shape; every other sub-field
+   and every other packed byte keeps its values; the bits outside the mask are kept at every point; a point the
+   selection does not address (through the chain) keeps its byte; the last value assigned to a point reads back *)
+Theorem C09_view_assign : forall fmt r n name c m chain sel,
+  rec_wf fmt r n -> find_sf fmt name = Some (c, m) -> chain_ok n chain ->
+  let vpos := view_chain n chain in
+  (forall p, In p sel -> 0 <= snd p <= sf_max m /\ (fst p < length vpos)%nat) ->
+  exists r', rec_assign_view fmt r name chain sel = Ok r'
+  /\ rec_wf fmt r' n
+  /\ (forall name' c' m', name' <> name -> find_sf fmt name' = Some (c', m') -> rec_read fmt r' name' = rec_read fmt r name')
+  /\ (forall c', c' <> c -> col_get r' c' = col_get r c')
+  /\ (forall j, Z.land (nth j (col_get r' c) 0) (Z.lnot m) = Z.land (nth j (col_get r c) 0) (Z.lnot m))
+  /\ (forall j, (forall p, In p sel -> nth (fst p) vpos 0%nat <> j) -> nth j (col_get r' c) 0 = nth j (col_get r c) 0)
+  /\ (forall sel1 p sel2, sel = sel1 ++ p :: sel2 -> (forall q, In q sel2 -> fst q <> fst p) ->
+        sf_get m (nth (nth (fst p) vpos 0%nat) (col_get r' c) 0) = snd p).
+Proof. exact assign_view_spec. Qed.
+Print Assumptions C09_view_assign.
+
+Theorem C09_view_overflow : forall fmt r name c m chain sel, find_sf fmt name = Some (c, m) ->
+  (exists p, In p sel /\ (snd p > sf_max m \/ snd p < 0)) -> rec_assign_view fmt r name chain sel = Err EOverflow.
+Proof. exact assign_view_overflow. Qed.
+Print Assumptions C09_view_overflow.
+
+(* rec[name] = vs (vs longer than the record: it grows; one element: broadcast): k = max(n, len vs) points; the field
+   reads back; every other sub-field / packed byte / bit outside the mask keeps its value on the existing points and
+   is ZERO on the appended points *)
+Theorem C09_seq_assign : forall fmt r n name c m vs r',
+  rec_wf fmt r n -> find_sf fmt name = Some (c, m) -> vs <> [] -> rec_assign_seq fmt r name vs = Ok r' ->
+  let k := Nat.max n (length vs) in
+  in_range m vs
+  /\ rec_wf fmt r' k
+  /\ rec_read fmt r' name = Some (seq_values vs k)
+  /\ (forall name' c' m', name' <> name -> find_sf fmt name' = Some (c', m') ->
+        rec_read fmt r' name' = Some (grow (map (sf_get m') (col_get r c')) k))
+  /\ (forall c', c' <> c -> In c' (fmt_cols fmt) -> col_get r' c' = grow (col_get r c') k)
+  /\ (forall j, Z.land (nth j (col_get r' c) 0) (Z.lnot m) = Z.land (nth j (grow (col_get r c) k) 0) (Z.lnot m)).
+Proof. exact assign_seq_spec. Qed.
+Print Assumptions C09_seq_assign.
+
+Theorem C09_seq_accepts : forall fmt r n name c m vs,
+  rec_wf fmt r n -> find_sf fmt name = Some (c, m) -> in_range m vs -> (n <= length vs)%nat \/ length vs = 1%nat ->
+  exists r', rec_assign_seq fmt r name vs = Ok r'.
+Proof. exact assign_seq_ok. Qed.
+Print Assumptions C09_seq_accepts.
+
+(* refused: no new record is produced (`step` keeps the old one: not grown, not modified) *)
+Theorem C09_seq_overflow : forall fmt r name c m vs, find_sf fmt name = Some (c, m) ->
+  (exists v, In v vs /\ (v > sf_max m \/ v < 0)) ->
+  rec_assign_seq fmt r name vs = Err EOverflow /\ step fmt r (OSeq name vs) = (r, Some EOverflow).
+Proof. exact seq_overflow_step. Qed.
+Print Assumptions C09_seq_overflow.
+
+(* copying values of the record's length onto ANY prior content: copied fields read back the copied values, the
+   others keep theirs *)
+Theorem C09_copy_exact : forall fmt vals r n,
+  rec_wf fmt r n -> NoDup (map fst vals) ->
+  (forall name vs, In (name, vs) vals -> length vs = n /\ exists c m, find_sf fmt name = Some (c, m) /\ in_range m vs) ->
+  exists r', rec_copy fmt r vals = (r', None)
+  /\ rec_wf fmt r' n
+  /\ (forall name vs, In (name, vs) vals -> rec_read fmt r' name = Some vs)
+  /\ (forall name c m, find_sf fmt name = Some (c, m) -> ~ In name (map fst vals) -> rec_read fmt r' name = rec_read fmt r name).
+Proof. exact copy_exact. Qed.
+Print Assumptions C09_copy_exact.
+
+(* copy_fields_from between formats with the same sub-field table, same number of points: every sub-field of the
+   destination equals the source's afterwards, whatever the destination held before *)
+Theorem C09_copy_same_family : forall sfmt dfmt src dst n,
+  In dfmt known_fmts -> (forall name, find_sf sfmt name = find_sf dfmt name) ->
+  rec_wf sfmt src n -> rec_wf dfmt dst n ->
+  exists r', step dfmt dst (OCopy sfmt src []) = (r', None)
+  /\ rec_wf dfmt r' n
+  /\ (forall name, In name (fmt_names dfmt) -> rec_read dfmt r' name = rec_read sfmt src name).
+Proof. exact copy_same_family. Qed.
+Print Assumptions C09_copy_same_family.
+
+(* histories: after any sequence of view assignments, whole-dimension assignments and copies (accepted or refused)
+   the record is a well-formed record of its format and has not shrunk *)
+Theorem C09_history_wf : forall fmt ops r n, rec_wf fmt r n ->
+  Forall (fun s => exists k, (n <= k)%nat /\ rec_wf fmt (fst s) k) (run fmt r ops).
+Proof. exact run_wf. Qed.
+Print Assumptions C09_history_wf.
+
 Example C09_nonvacuous :
   In (6, "scanner_channel"%string, "classification_flags"%string, 48) all_sub_fields
   /\ sf_assign 48 0xCF 2 = Ok 0xEF /\ sf_assign 48 0xCF 4 = Err EOverflow /\ sf_assign 48 0xCF (-1) = Err EOverflow
-  /\ sf_assign_arr 7 [0xFF; 0x00; 0xF8] [(0%nat, 5); (2%nat, 1); (0%nat, 2)] = Ok [0xFA; 0x00; 0xF9].
+  /\ sf_assign_arr 7 [0xFF; 0x00; 0xF8] [(0%nat, 5); (2%nat, 1); (0%nat, 2)] = Ok [0xFA; 0x00; 0xF9]
+  (* a history: growth by one point, a one-point slice of a view, a refused longer sequence, a copy onto non-zero bytes *)
+  /\ run 1 [("bit_fields"%string, [0xFF; 0x00]); ("raw_classification"%string, [0xAA; 0x55])]
+        [OSeq "return_number" [1; 2; 3]; OView "classification" [[1; 2]%nat] [(1%nat, 9)]; OSeq "number_of_returns" [8; 8; 8; 8];
+         OCopy 3 [("bit_fields"%string, [0x12; 0x34; 0x56]); ("raw_classification"%string, [1; 2; 3])] []]
+     = [([("bit_fields"%string, [0xF9; 2; 3]); ("raw_classification"%string, [0xAA; 0x55; 0])], None);
+        ([("bit_fields"%string, [0xF9; 2; 3]); ("raw_classification"%string, [0xAA; 0x55; 9])], None);
+        ([("bit_fields"%string, [0xF9; 2; 3]); ("raw_classification"%string, [0xAA; 0x55; 9])], Some EOverflow);
+        ([("bit_fields"%string, [0x12; 0x34; 0x56]); ("raw_classification"%string, [1; 2; 3])], None)].
 Proof. vm_compute. repeat split; try reflexivity. repeat (first [left; reflexivity | right]). Qed.
